@@ -382,6 +382,33 @@ def run(ctx, res):
                         res.violation("unit-roundtrip-from-value", {"s": s, "str": str(u2)}, {"codec": "Unit", "arg": _ser(s)})
                 except Exception as e:
                     res.violation("unit-raised", {"s": s, "exc": repr(e)}, {"codec": "Unit", "arg": _ser(s)})
+        # every argument form (int, float, Decimal, str) over whole values, multiples of ten, fractions: the string is
+        # an ODF length (no exponent) and reads back as the same number and unit
+        import re as _re
+
+        LENGTH = _re.compile(r"-?([0-9]+(\.[0-9]*)?|\.[0-9]+)(cm|mm|in|pt|pc|px|em|%)\Z")
+        nums = [0, 1, 2, 7, 10, 20, 30, 100, 250, 1000, 1200, 101, -30, -100, 0.5, 10.5, 2.25, 0.254, 1234.5, 0.001, -0.75]
+        for num in nums:
+            forms = [("Decimal", Decimal(str(num)))]
+            if float(num) == int(num):
+                forms += [("int", int(num)), ("float-whole", float(num)), ("str-int", str(int(num)))]
+            else:
+                forms += [("float", float(num)), ("str", str(num))]
+            for fname, arg in forms:
+                for unit in ["cm", "pt", "in", "%"]:
+                    res.judge()
+                    res.cls(("Unit-arg", fname, "multiple-of-ten" if float(num) % 10 == 0 and num else "other", unit), True)
+                    case = {"codec": "Unit-arg", "arg": {"t": fname, "v": repr(arg), "unit": unit}}
+                    try:
+                        u = Unit(arg, unit) if not isinstance(arg, str) else Unit(arg + unit)
+                        text = str(u)
+                        back = Unit(text)
+                        if not LENGTH.match(text):
+                            res.violation(f"unit-not-an-odf-length:{fname}", {"arg": repr(arg), "unit": unit, "str": text}, case)
+                        elif back.value != Decimal(str(num)) or back.unit != unit or u.value != Decimal(str(num)):
+                            res.violation(f"unit-value-differs:{fname}", {"arg": repr(arg), "unit": unit, "str": text, "back": [str(back.value), back.unit]}, case)
+                    except Exception as e:
+                        res.violation(f"unit-raised:{fname}", {"arg": repr(arg), "unit": unit, "exc": repr(e)}, case)
     res.counters.update({"contract:" + k: v for k, v in K.COUNT.items()})
     res.counters.update({"unjudged-lenient:" + k: v for k, v in K.UNJUDGED.items()})
     res.sample({"Date": "0999-12-31", "near-miss": "PT1.5S", "colour": "#00FF7F"})
@@ -390,9 +417,21 @@ def run(ctx, res):
 def replay(case):
     K.install()
     F = _codec_fns()
-    arg = _deser(case["arg"])
     name = case["codec"]
     out = []
+    if name == "Unit-arg":
+        import re as _re
+        from decimal import Decimal as _D
+
+        from odfdo.datatype import Unit
+
+        a = case["arg"]
+        v = eval(a["v"], {"Decimal": _D})  # repr of an int / float / Decimal / str written by this module
+        u = Unit(v, a["unit"]) if not isinstance(v, str) else Unit(v + a["unit"])
+        if not _re.match(r"-?([0-9]+(\.[0-9]*)?|\.[0-9]+)(cm|mm|in|pt|pc|px|em|%)\Z", str(u)):
+            out.append({"mechanism": "unit-not-an-odf-length", "detail": {"str": str(u)}})
+        return out
+    arg = _deser(case["arg"])
     if name == "Unit":
         from odfdo.datatype import Unit
 
